@@ -12,33 +12,26 @@ import ProfiVerif.Model.Gsd.Peg
 namespace PV.C19
 open PV.Gsd
 
-/-- Full-strength statement: the interpretation never panics, whatever AST the grammar hands over.
-**False for the current code** (open finding `K_C19_unindexed`), see `interp_no_panic_counterexample`. -/
-def interp_no_panic_full : Prop := ∀ ast : Ast, interp ast ≠ .panic
-
-/-- For **every** AST — any statement list, any setting key with any value kind (string where a
-number is expected and vice versa, number lists, family identifiers), any number token text
-(floats, negative, overflowing, empty), any data type identifier, dangling `Ext_User_Prm_Data_Ref`,
-unknown `Prm_Text_Ref`, slots without modules — the interpretation returns a description or an
-error value, *provided* no setting that needs an `(index)` is written without one. -/
-theorem interp_no_panic_partial (ast : Ast) (h : hasUnindexed ast = false) : interp ast ≠ .panic := by
+/-- **The interpretation never panics.**  For **every** AST — any statement list, any setting key with
+any value kind (string where a number is expected and vice versa, number lists, family identifiers),
+with or without `(index)`, any number token text (floats, negative, overflowing, empty), any data type
+identifier, dangling `Ext_User_Prm_Data_Ref`, unknown `Prm_Text_Ref`, slots without modules — the
+interpretation returns a description or an error value.  (Full strength since the repair of finding
+F13-gsd-unindexed, /repo 1c3df29.) -/
+theorem interp_no_panic (ast : Ast) : interp ast ≠ .panic := by
   unfold interp
-  exact Res.safe_bind' (safe_run _ _ h) fun st => safe_finish st
+  exact Res.safe_bind' (safe_run _ _) fun st => safe_finish st
 
-/-- Contrapositive: the missing index is the *only* way to make the interpretation panic. -/
-theorem interp_panic_only_unindexed (ast : Ast) (h : interp ast = .panic) : hasUnindexed ast = true := by
-  cases hu : hasUnindexed ast with
-  | true => rfl
-  | false => exact absurd h (interp_no_panic_partial ast hu)
+/-- The former panic witness `Unit_Diag_Bit=1` (a setting that needs an `(index)` but has none) is
+now the error "missing value after the index in parentheses" … -/
+theorem interp_unindexed_is_error :
+    interp [.setting { key := "Unit_Diag_Bit".toList, index := none, value := .num (.dec "1".toList) }] =
+      .err .missing := by rfl
 
-/-- Witness of the open finding: `Unit_Diag_Bit=1` (after the marker) makes the interpretation panic. -/
-def unindexedWitness : Ast :=
-  [.setting { key := "Unit_Diag_Bit".toList, index := none, value := .num (.dec "1".toList) }]
-
-theorem interp_no_panic_counterexample : interp unindexedWitness = .panic := by rfl
-
-theorem interp_no_panic_full_false : ¬ interp_no_panic_full :=
-  fun h => h unindexedWitness interp_no_panic_counterexample
+/-- … for each of the keys concerned, at top level and inside a module, whenever the first argument
+is a number (otherwise the number error comes first). -/
+theorem second_missing (s : Setting) (h : s.index = none) : s.second = .err .missing := by
+  simp [Setting.second, h]
 
 /-! ### The description is reproduced -/
 
@@ -114,9 +107,7 @@ theorem lex_type_case (a b : Str) (h : lower a = lower b) : dataTypeOfName a = d
 "every pair tree the PEG interpreter builds for `gsd.pest` has the shape `toAst` expects", i.e. a
 verified reading of the grammar.  The PEG transcription is validated differentially against the real
 pest parser instead (engine `gsd`), and the pest runtime is trusted not to panic. -/
-def parse_no_panic_full : Prop :=
-  ∀ text : Str, ∀ ast, (∃ tree, Peg.parseGsd text = some (some tree) ∧ Peg.toAst tree = some ast) →
-    hasUnindexed ast = false → parse text ≠ some .panic
+def parse_no_panic_full : Prop := ∀ text : Str, parse text ≠ some .panic
 
 /-- NOT PROVED.  The PEG never runs out of its fuel bound `3·len + 1000`. -/
 def parse_fuel_full : Prop := ∀ text : Str, parse text ≠ none
@@ -176,14 +167,5 @@ example : exampleDesc.WF where
     simp only [exampleDesc, List.mem_singleton] at ha
     subst ha
     exact ⟨by decide, by decide, by decide, by decide⟩
-
-/-- Non-vacuity: the hypothesis of `interp_no_panic_partial` holds for an AST with ill-typed values,
-a dangling reference and an indexed setting. -/
-example : hasUnindexed
-    [.setting { key := "Vendor_Name".toList, index := none, value := .num (.dec "12".toList) },
-     .setting { key := "Ext_User_Prm_Data_Ref".toList, index := some (.dec "0".toList), value := .num (.dec "99".toList) },
-     .extPrm { id := .dec "1".toList, name := "\"x\"".toList, typ := .ident "Foo8".toList, default := .hex "0x".toList,
-               constraint := none, textRef := some (.dec "7".toList), changeable := none, visible := none }] = false := by
-  decide
 
 end PV.C19
